@@ -191,4 +191,302 @@ mod verif_proofs {
         assert!(out.prf.is_none());
         core::mem::forget(c);
     }
+
+    // ------------------------------------------------------------------------------------------
+    // C01: RP ID bound to the origin at a label boundary, registrable domain
+    // ------------------------------------------------------------------------------------------
+    //
+    // The `Url` itself is never parsed (url / idna parsers are out of reach): the code under test only
+    // calls `Url::domain` and `Url::scheme` on it, and both are stubbed to return harness-controlled
+    // symbolic strings.  The Url value passed in is a placeholder whose bytes are never read.
+
+    static mut HOST: Option<&'static str> = None;
+    static mut SCHEME: &'static str = "https";
+
+    fn stub_domain(_u: &Url) -> Option<&str> {
+        unsafe { HOST }
+    }
+
+    fn stub_scheme(_u: &Url) -> &str {
+        unsafe { SCHEME }
+    }
+
+    /// Model of `decode_host` for names that contain no "xn--" label (none can be spelled in the
+    /// harness alphabet): the name itself.  `str::split` + memchr under symbolic lengths does not finish
+    /// in CBMC (symex 690 s / 6.9 M steps at 4+3 bytes, measured); the IDN branch of decode_host is
+    /// decided separately (E2 provenance check of the provider's argument).
+    fn stub_decode_host(host: &str) -> Option<Cow<str>> {
+        Some(Cow::from(host))
+    }
+
+    /// idna stand-in: labels starting with "xn--" decode to something else (or fail)
+    fn stub_domain_to_unicode(domain: &str) -> (String, Result<(), idna::Errors>) {
+        let fail: bool = kani::any();
+        let mut out = String::from("u");
+        out.push_str(domain);
+        if fail {
+            (out, Err(idna::Errors::default()))
+        } else {
+            (out, Ok(()))
+        }
+    }
+
+    /// symbolic ASCII string over the alphabet {a, b, c, .} of length <= N, leaked to 'static
+    fn any_name<const N: usize>() -> &'static str {
+        let bytes: [u8; N] = kani::any();
+        let len: usize = kani::any();
+        kani::assume(len <= N);
+        let mut i = 0;
+        while i < N {
+            kani::assume(bytes[i] == b'a' || bytes[i] == b'b' || bytes[i] == b'c' || bytes[i] == b'.');
+            i += 1;
+        }
+        let v: &'static mut [u8; N] = Box::leak(Box::new(bytes));
+        unsafe { core::str::from_utf8_unchecked(&v[..len]) }
+    }
+
+    /// Suffix provider of the harness: the PSL algorithm over the rule set {"c", "b.c"}.
+    /// A name is registrable iff it is "<label>.c" with label != "b" ... or "<label>.b.c", etc.
+    pub(crate) struct TinyPsl;
+
+    fn label_start(s: &[u8], end: usize) -> usize {
+        // index of the first byte of the label ending at `end` (exclusive)
+        let mut i = end;
+        while i > 0 && s[i - 1] != b'.' {
+            i -= 1;
+        }
+        i
+    }
+
+    /// public suffix length of `s` under the rules {c, b.c} plus the implicit "*" rule
+    fn tiny_suffix_len(s: &[u8]) -> usize {
+        let n = s.len();
+        let l1 = label_start(s, n);
+        let last = &s[l1..n];
+        if last.len() == 1 && last[0] == b'c' {
+            // rule "c"; longer rule "b.c"?
+            if l1 >= 2 {
+                let l2 = label_start(s, l1 - 1);
+                let second = &s[l2..l1 - 1];
+                if second.len() == 1 && second[0] == b'b' {
+                    return n - l2;
+                }
+            }
+            return n - l1;
+        }
+        n - l1 // implicit "*": the last label
+    }
+
+    impl public_suffix::EffectiveTLDProvider for TinyPsl {
+        fn effective_tld_plus_one<'a>(&self, domain: &'a str) -> Result<&'a str, public_suffix::Error> {
+            let s = domain.as_bytes();
+            let n = s.len();
+            if n == 0 || s[0] == b'.' || s[n - 1] == b'.' {
+                return Err(public_suffix::Error::EmptyLabel);
+            }
+            let mut i = 1;
+            while i < n {
+                if s[i] == b'.' && s[i - 1] == b'.' {
+                    return Err(public_suffix::Error::EmptyLabel);
+                }
+                i += 1;
+            }
+            let sl = tiny_suffix_len(s);
+            if n <= sl {
+                return Err(public_suffix::Error::CannotDeriveETldPlus1);
+            }
+            let start = label_start(s, n - sl - 1);
+            Ok(&domain[start..])
+        }
+    }
+
+    fn ref_registrable(s: &[u8]) -> bool {
+        use public_suffix::EffectiveTLDProvider;
+        TinyPsl
+            .effective_tld_plus_one(unsafe { core::str::from_utf8_unchecked(s) })
+            .is_ok()
+    }
+
+    fn ref_label_suffix(host: &[u8], rp: &[u8]) -> bool {
+        // rp == host, or host ends with "." ++ rp
+        if rp.len() > host.len() {
+            return false;
+        }
+        let off = host.len() - rp.len();
+        let mut i = 0;
+        while i < rp.len() {
+            if host[off + i] != rp[i] {
+                return false;
+            }
+            i += 1;
+        }
+        off == 0 || host[off - 1] == b'.'
+    }
+
+    /// `true` when the harness body runs as an ordinary test (concrete playback of a counterexample):
+    /// stubbed to `false` for the model checker, where the Url placeholder + stubs are used instead.
+    fn running_natively() -> bool {
+        true
+    }
+    fn stub_running_natively() -> bool {
+        false
+    }
+
+    /// names whose labels are all non-empty (what a parsed origin host looks like)
+    fn well_formed(s: &[u8]) -> bool {
+        if s.is_empty() || s[0] == b'.' || s[s.len() - 1] == b'.' {
+            return false;
+        }
+        let mut i = 1;
+        while i < s.len() {
+            if s[i] == b'.' && s[i - 1] == b'.' {
+                return false;
+            }
+            i += 1;
+        }
+        true
+    }
+
+    /// the origin: under the model checker a placeholder (its bytes are never read, `domain` / `scheme`
+    /// are stubbed); natively a really parsed URL with that scheme and host (an IP literal when the
+    /// origin is to have no DNS host)
+    fn origin_url(host: Option<&'static str>, https: bool) -> Option<Url> {
+        if running_natively() {
+            let h = host.unwrap_or("127.0.0.1");
+            Url::parse(&format!("{}://{}/", if https { "https" } else { "http" }, h)).ok()
+        } else {
+            unsafe {
+                HOST = host;
+                SCHEME = if https { "https" } else { "http" };
+            }
+            let url = core::mem::MaybeUninit::<Url>::uninit();
+            Some(unsafe { url.assume_init() })
+        }
+    }
+
+    fn web_case<const HN: usize, const RN: usize>() {
+        let host = any_name::<HN>();
+        kani::assume(well_formed(host.as_bytes()));
+        let host_present: bool = kani::any();
+        let rp = any_name::<RN>();
+        let rp_present: bool = kani::any();
+        let https: bool = kani::any();
+        let flag: bool = kani::any();
+        let Some(url) = origin_url(host_present.then_some(host), https) else {
+            return; // (native only) not a parseable origin
+        };
+        let verifier = RpIdVerifier::new(TinyPsl).allows_insecure_localhost(flag);
+        let r = verifier.assert_web_rp_id(&url, rp_present.then_some(rp));
+        let eff: &str = if rp_present { rp } else { host };
+        // the alphabet {a,b,c,.} cannot spell "localhost": that exception is exercised in c01_localhost
+        let want = host_present
+            && (!rp_present || ref_label_suffix(host.as_bytes(), rp.as_bytes()))
+            && ref_registrable(eff.as_bytes())
+            && https;
+        match r {
+            Ok(got) => {
+                // accepted only if the oracle accepts, and the result is exactly the effective RP ID
+                assert!(want);
+                assert!(got.len() == eff.len());
+                let mut i = 0;
+                while i < got.len() {
+                    assert!(got.as_bytes()[i] == eff.as_bytes()[i]);
+                    i += 1;
+                }
+                if HN >= 5 {
+                    kani::cover!(rp_present && rp.len() < host.len());
+                }
+                kani::cover!(!rp_present);
+            }
+            Err(_) => {
+                assert!(!want);
+                kani::cover!(host_present && rp_present && https);
+            }
+        }
+        core::mem::forget(verifier);
+        core::mem::forget(url);
+    }
+
+    macro_rules! web_instance {
+        ($name:ident, $h:expr, $r:expr, $unwind:expr) => {
+            #[kani::proof]
+            #[kani::stub(url::Url::domain, stub_domain)]
+            #[kani::stub(url::Url::scheme, stub_scheme)]
+            #[kani::stub(crate::decode_host, stub_decode_host)]
+            #[kani::stub(running_natively, stub_running_natively)]
+            #[kani::unwind($unwind)]
+            fn $name() {
+                web_case::<{ $h }, { $r }>();
+            }
+        };
+    }
+    web_instance!(c01_web_free_4_3, 4, 3, 12);
+    web_instance!(c01_web_free_5_3, 5, 3, 12);
+    web_instance!(c01_web_free_6_4, 6, 4, 14);
+
+    #[kani::proof]
+    #[kani::stub(url::Url::domain, stub_domain)]
+    #[kani::stub(url::Url::scheme, stub_scheme)]
+    #[kani::stub(crate::decode_host, stub_decode_host)]
+    #[kani::stub(running_natively, stub_running_natively)]
+    #[kani::unwind(12)]
+    fn c01_web_twin() {
+        let host = any_name::<4>();
+        kani::assume(well_formed(host.as_bytes()));
+        let Some(url) = origin_url(Some(host), true) else { return };
+        let verifier = RpIdVerifier::new(TinyPsl);
+        let r = verifier.assert_web_rp_id(&url, None);
+        kani::assume(r.is_ok());
+        core::mem::forget(verifier);
+        core::mem::forget(url);
+        assert!(false);
+    }
+
+    /// the literal host "localhost": accepted exactly when insecure localhost was enabled, whatever
+    /// the scheme; an RP ID other than "localhost" for that host follows the general rule
+    #[kani::proof]
+    #[kani::stub(url::Url::domain, stub_domain)]
+    #[kani::stub(url::Url::scheme, stub_scheme)]
+    #[kani::stub(crate::decode_host, stub_decode_host)]
+    #[kani::stub(running_natively, stub_running_natively)]
+    #[kani::unwind(12)]
+    fn c01_localhost_gate() {
+        let https: bool = kani::any();
+        let flag: bool = kani::any();
+        let rp_present: bool = kani::any();
+        let Some(url) = origin_url(Some("localhost"), https) else { return };
+        let verifier = RpIdVerifier::new(TinyPsl).allows_insecure_localhost(flag);
+        let r = verifier.assert_web_rp_id(&url, rp_present.then_some("localhost"));
+        match r {
+            Ok(got) => {
+                assert!(flag);
+                assert!(got.len() == 9);
+                kani::cover!(!https);
+            }
+            Err(e) => {
+                assert!(!flag);
+                assert!(matches!(e, WebauthnError::InsecureLocalhostNotAllowed));
+                kani::cover!(https);
+            }
+        }
+        // is_valid_rp_id agrees
+        assert!(verifier.is_valid_rp_id("localhost") == flag);
+        core::mem::forget(verifier);
+        core::mem::forget(url);
+    }
+
+    /// is_valid_rp_id(rp) <=> rp is registrable under the provider (names that cannot be "localhost")
+    #[kani::proof]
+    #[kani::stub(crate::decode_host, stub_decode_host)]
+    #[kani::unwind(12)]
+    fn c01_is_valid_rp_id() {
+        let rp = any_name::<5>();
+        let flag: bool = kani::any();
+        let verifier = RpIdVerifier::new(TinyPsl).allows_insecure_localhost(flag);
+        let got = verifier.is_valid_rp_id(rp);
+        assert!(got == ref_registrable(rp.as_bytes()));
+        kani::cover!(got);
+        kani::cover!(!got && rp.len() == 5);
+        core::mem::forget(verifier);
+    }
 }
